@@ -60,7 +60,7 @@ theorem stepChars_nil (st : St) : stepChars st [] = st := by
 
 theorem stepChars_append (st : St) (a b : Str) : stepChars (stepChars st a) b = stepChars st (a ++ b) := by
   unfold stepChars
-  by_cases h : st.parsing = true <;> simp [h, List.append_assoc]
+  by_cases h : (st.parsing && st.skip == 0) = true <;> simp [h, List.append_assoc]
 
 theorem run_chunks (st : St) (cs : List Str) (r : List Event) :
     run st (cs.map Event.chars ++ r) = run (stepChars st cs.flatten) r := by
@@ -99,17 +99,6 @@ theorem chunked_refl (evs : List Event) : Chunked evs evs := by
     | stop q => exact .other _ r r ih
 
 /-! ### what LoadParser builds from the events of a forest -/
-
-mutual
-/-- no section (trigger) element anywhere inside -/
-def noTrigN : Node → Bool
-  | .text _ => true
-  | .cdata _ => true
-  | .elem q _ kids => !isTrigger q && noTrigF kids
-def noTrigF : Forest → Bool
-  | .nil => true
-  | .cons h t => noTrigN h && noTrigF t
-end
 
 def hasElemF : Forest → Bool
   | .nil => false
@@ -162,12 +151,18 @@ def regOne (pq : Option QName) (q : QName) (a : List (QName × Str)) : List Str 
       | none => []
     else []
 
-/-- names registered by the direct children of an element `pq` -/
-def regF (pq : Option QName) : Forest → List Str
+mutual
+/-- the names registered while a subtree is attached under `pq`, in document order.  Since the repair of the nested
+    sections an office:styles / office:automatic-styles element may occur anywhere (inside an inline office:document),
+    and the style:style children of such an element are registered like those of the real sections. -/
+def regN (pq : Option QName) : Node → List Str
+  | .elem q a k => regOne pq q a ++ regAllF (pq.map (fun _ => q)) k
+  | .text _ => []
+  | .cdata _ => []
+def regAllF (pq : Option QName) : Forest → List Str
   | .nil => []
-  | .cons (.elem q a _) t => regOne pq q a ++ regF pq t
-  | .cons (.text _) t => regF pq t
-  | .cons (.cdata _) t => regF pq t
+  | .cons h t => regN pq h ++ regAllF pq t
+end
 
 /-- none of the new names is registered already, and they differ from each other -/
 def fresh (names : List Str) : List Str → Bool
@@ -197,6 +192,10 @@ def docAfter (r : Root) (d : Doc) (ns : Forest) : Doc :=
   unfold attachToRoot; cases hr : st.root <;> simp [hr]
 @[simp] theorem attachToRoot_currDet (st : St) (ns : Forest) : (attachToRoot st ns).currDet = st.currDet := by
   unfold attachToRoot; cases hr : st.root <;> simp [hr]
+@[simp] theorem attachToRoot_depth (st : St) (ns : Forest) : (attachToRoot st ns).depth = st.depth := by
+  unfold attachToRoot; cases hr : st.root <;> simp [hr]
+@[simp] theorem attachToRoot_skip (st : St) (ns : Forest) : (attachToRoot st ns).skip = st.skip := by
+  unfold attachToRoot; cases hr : st.root <;> simp [hr]
 
 def appendKids (st : St) (ns : Forest) : St :=
   match st.spine with
@@ -218,21 +217,15 @@ theorem addToParent_ok (st : St) (ns : Forest) (h : ParentOK st) : addToParent s
 def result (st : St) (f : Forest) : St :=
   { appendKids st (mergeK st.data f).1 with
       data := (mergeK st.data f).2
-      names := st.names ++ regF (parentQ st) f
+      names := st.names ++ regAllF (parentQ st) f
       currDet := st.currDet && !hasElemF f }
 
 def flushP (st : St) : St :=
   if st.data.isEmpty then st else { appendKids st (.cons (.text st.data) .nil) with data := [] }
 
 def openE (st : St) (q : QName) (a : List (QName × Str)) : St :=
-  { st with names := st.names ++ regOne (parentQ st) q a, spine := ⟨q, a, .nil⟩ :: st.spine, currDet := false }
-
-theorem isTrigger_false_secOf {q : QName} (h : isTrigger q = false) : secOfTrigger q = none := by
-  unfold isTrigger at h; cases hs : secOfTrigger q <;> simp_all
-
-theorem trig_fontFace : isTrigger qFontFace = true := by decide
-theorem trig_styles : isTrigger qStyles = true := by decide
-theorem trig_autoStyles : isTrigger qAutoStyles = true := by decide
+  { st with depth := st.depth + 1, names := st.names ++ regOne (parentQ st) q a, spine := ⟨q, a, .nil⟩ :: st.spine,
+            currDet := false }
 
 theorem attachHook_fresh (names : List Str) (pq : Option QName) (q : QName) (a : List (QName × Str))
     (h : fresh names (regOne pq q a) = true) :
@@ -268,73 +261,76 @@ theorem parentOK_appendKids (st : St) (ns : Forest) (h : ParentOK st) : ParentOK
     · exact absurd hs h
     all_goals simp [h, hs]
 
-theorem stepStart_inner (st : St) (q : QName) (a : List (QName × Str)) (hp : st.parsing = true)
-    (hok : ParentOK st) (hf : st.fix = []) (hq : isTrigger q = false)
+/-- an element that is not a section (it is not a child of the root element: `depth ≥ 2` before its start tag) and
+    is not a repeated font declaration -/
+theorem stepStart_inner (st : St) (q : QName) (a : List (QName × Str)) (hp : st.parsing = true) (hsk : st.skip = 0)
+    (hd : 2 ≤ st.depth) (hok : ParentOK st) (hf : st.fix = []) (hnf : fontDeclared st q a = false)
     (hfr : fresh st.names (regOne (parentQ st) q a) = true) :
     stepStart st q a = some (openE (flushP st) q a) := by
-  have hsec := isTrigger_false_secOf hq
-  have hff : q ≠ qFontFace := by intro h; rw [h, trig_fontFace] at hq; cases hq
+  have hd2 : decide (st.depth + 1 = 2) = false := by simp; omega
   unfold stepStart
-  simp only [hq, hp, hff, Bool.false_eq_true, if_false, Bool.and_false, Bool.not_true, decide_false]
-  by_cases hd : st.data.isEmpty = true
-  · simp only [hd, if_true, hsec]
-    have hfl : flushP st = st := by simp [flushP, hd]
+  simp only [hd2, Bool.false_and, Bool.false_eq_true, if_false, hp, Bool.not_true, hsk, hnf, bne_self_eq_false,
+    Bool.or_self]
+  by_cases hdt : st.data.isEmpty = true
+  · simp only [hdt, if_true]
+    have hfl : flushP st = st := by simp [flushP, hdt]
     rw [hfl]
     unfold ParentOK at hok
     cases hs : st.spine with
     | cons f r =>
       simp only [hs]
       rw [hf, attachHook_fresh _ _ _ _ (by simpa [parentQ, hs] using hfr)]
-      simp [openE, hs, hp, hf, parentQ]
+      simp [openE, hs, hp, hf, parentQ, hsk]
     | nil =>
       rcases hok with h | h | h | ⟨s, h⟩
       · exact absurd hs h
       all_goals
         simp only [hs, h]
         rw [hf, attachHook_fresh _ _ _ _ (by simpa [parentQ, hs, h] using hfr)]
-        simp [openE, hs, hp, hf, parentQ, h]
-  · simp only [hd, Bool.false_eq_true, if_false, addToParent_ok st _ hok, Option.map_some, hsec]
-    have hfl : flushP st = { appendKids st (.cons (.text st.data) .nil) with data := [] } := by simp [flushP, hd]
+        simp [openE, hs, hp, hf, parentQ, h, hsk]
+  · simp only [hdt, Bool.false_eq_true, if_false, addToParent_ok st _ hok, Option.map_some]
+    have hfl : flushP st = { appendKids st (.cons (.text st.data) .nil) with data := [] } := by simp [flushP, hdt]
     rw [hfl]
     unfold ParentOK at hok
     cases hs : st.spine with
     | cons f r =>
       simp only [appendKids, hs]
       rw [hf, attachHook_fresh _ _ _ _ (by simpa [parentQ, hs, Frame.add] using hfr)]
-      simp [openE, hs, hp, hf, parentQ, Frame.add]
+      simp [openE, hs, hp, hf, parentQ, Frame.add, hsk]
     | nil =>
       rcases hok with h | h | h | ⟨s, h⟩
       · exact absurd hs h
       all_goals
         simp only [appendKids, attachToRoot, hs, h]
         rw [hf, attachHook_fresh _ _ _ _ (by simpa [parentQ, hs, h] using hfr)]
-        simp [openE, hs, hp, hf, parentQ, h]
+        simp [openE, hs, hp, hf, parentQ, h, hsk]
 
 def closeE (st : St) : St :=
   match st.spine with
-  | f :: r => { appendKids { st with spine := r } (.cons f.close .nil) with currDet := false }
+  | f :: r => { appendKids { st with spine := r } (.cons f.close .nil) with depth := st.depth - 1, currDet := false }
   | [] => st
 
-theorem stepStop_inner (st : St) (q : QName) (hp : st.parsing = true) (hs : st.spine ≠ [])
-    (hcd : st.currDet = false) (hq : isTrigger q = false) :
+theorem stepStop_inner (st : St) (q : QName) (hp : st.parsing = true) (hsk : st.skip = 0) (hd : 3 ≤ st.depth)
+    (hs : st.spine ≠ []) (hcd : st.currDet = false) :
     stepStop st q = some (closeE (flushP st)) := by
+  have hd1 : decide (st.depth - 1 = 1) = false := by simp; omega
   unfold stepStop
-  simp only [hp, Bool.not_true, Bool.false_eq_true, if_false]
+  simp only [hp, Bool.not_true, Bool.false_eq_true, if_false, hsk, bne_self_eq_false, hd1, Bool.false_and]
   cases hsp : st.spine with
   | nil => exact absurd hsp hs
   | cons f r =>
-    by_cases hd : st.data.isEmpty = true
-    · have hfl : flushP st = st := by simp [flushP, hd]
-      simp only [hd, if_true, hfl, hsp, closeE, hq]
+    by_cases hdt : st.data.isEmpty = true
+    · have hfl : flushP st = st := by simp [flushP, hdt]
+      simp only [hdt, if_true, hfl, hsp, closeE]
       cases r with
-      | nil => simp [appendKids]
-      | cons g r' => simp [appendKids]
-    · have hfl : flushP st = { appendKids st (.cons (.text st.data) .nil) with data := [] } := by simp [flushP, hd]
-      simp only [hd, Bool.false_eq_true, if_false, addToCurr, hcd, addToParent, hsp, Option.map_some, hfl, closeE,
-        appendKids, hq]
+      | nil => simp [appendKids, hp, hsk]
+      | cons g r' => simp [appendKids, hp, hsk]
+    · have hfl : flushP st = { appendKids st (.cons (.text st.data) .nil) with data := [] } := by simp [flushP, hdt]
+      simp only [hdt, Bool.false_eq_true, if_false, addToCurr, hcd, addToParent, hsp, Option.map_some, hfl, closeE,
+        appendKids]
       cases r with
-      | nil => simp [appendKids]
-      | cons g r' => simp [appendKids]
+      | nil => simp [appendKids, hp, hsk]
+      | cons g r' => simp [appendKids, hp, hsk]
 
 /-! #### algebra of `appendKids` -/
 
@@ -378,82 +374,85 @@ theorem fresh_append (names a b : List Str) : fresh names (a ++ b) = (fresh name
   | nil => simp [fresh]
   | cons n r ih => simp [fresh, ih, Bool.and_assoc, List.append_assoc]
 
-theorem regOne_nontrigger (pq : Option QName) (q : QName) (a : List (QName × Str))
-    (h : ∀ p, pq = some p → isTrigger p = false) : regOne pq q a = [] := by
-  unfold regOne
-  cases pq with
-  | none => rfl
-  | some p =>
-    have hp := h p rfl
-    have h1 : p ≠ qStyles := by intro e; rw [e, trig_styles] at hp; cases hp
-    have h2 : p ≠ qAutoStyles := by intro e; rw [e, trig_autoStyles] at hp; cases hp
-    simp [h1, h2]
-
-theorem regF_nontrigger (pq : Option QName) (h : ∀ p, pq = some p → isTrigger p = false) :
-    (f : Forest) → regF pq f = []
-  | .nil => rfl
-  | .cons (.text _) t => by simp [regF, regF_nontrigger pq h t]
-  | .cons (.cdata _) t => by simp [regF, regF_nontrigger pq h t]
-  | .cons (.elem q a _) t => by simp [regF, regOne_nontrigger pq q a h, regF_nontrigger pq h t]
-
 /-- what one element contributes: from `st`, the events `start q a`, those of `kids`, `stop q` -/
 def afterElem (st : St) (q : QName) (a : List (QName × Str)) (kids : Forest) : St :=
   { appendKids st (flushT st.data (.cons (.elem q a (mergeTF [] kids)) .nil)) with
       data := []
-      names := st.names ++ regOne (parentQ st) q a
+      names := st.names ++ regN (parentQ st) (.elem q a kids)
       currDet := false }
 
-theorem elem_closed (st : St) (q : QName) (a : List (QName × Str)) (kids : Forest)
-    (hr : regF (parentQ (openE (flushP st) q a)) kids = []) :
+theorem parentQ_openE (st : St) (q : QName) (a : List (QName × Str)) :
+    parentQ (openE st q a) = (parentQ st).map (fun _ => q) := by
+  unfold parentQ openE
+  cases st.root <;> simp
+
+theorem elem_closed (st : St) (q : QName) (a : List (QName × Str)) (kids : Forest) :
     closeE (flushP (result (openE (flushP st) q a) kids)) = afterElem st q a kids := by
   rw [flushP_eq (result _ _)]
-  simp only [result, hr, List.append_nil]
+  have hq : parentQ (openE (flushP st) q a) = (parentQ st).map (fun _ => q) := by
+    rw [parentQ_openE, flushP_eq]; have := parentQ_appendKids st (flushT st.data .nil); simpa [parentQ] using congrArg _ this
+  simp only [result, hq]
   rw [flushP_eq st]
   have hm := mergeTF_eq [] kids
-  obtain ⟨doc, names, fix, sp, parsing, data, root, spine, currDet⟩ := st
+  obtain ⟨doc, names, fix, sp, parsing, data, root, spine, depth, skip, currDet⟩ := st
   cases spine with
   | cons f r =>
-    simp [openE, appendKids, closeE, afterElem, parentQ, Frame.add, Frame.close, hm, appF_assoc, appF_flushT]
+    simp [openE, appendKids, closeE, afterElem, parentQ, Frame.add, Frame.close, hm, appF_assoc, appF_flushT, regN,
+      List.append_assoc]
   | nil =>
     cases root <;>
-      simp [openE, appendKids, closeE, afterElem, parentQ, Frame.add, Frame.close, hm, appF_flushT, docAfter, Doc.app_app]
+      simp [openE, appendKids, closeE, afterElem, parentQ, Frame.add, Frame.close, hm, appF_flushT, docAfter, Doc.app_app,
+        regN, List.append_assoc]
 
 theorem result_nil (st : St) : result st .nil = st := by
-  simp only [result, mergeK, regF, hasElemF, appendKids_nil, List.append_nil]
+  simp only [result, mergeK, regAllF, hasElemF, appendKids_nil, List.append_nil]
   cases st; simp
 
 theorem result_text (st : St) (s : Str) (t : Forest) :
     result { st with data := st.data ++ s } t = result st (.cons (.text s) t) := by
-  obtain ⟨doc, names, fix, sp, parsing, data, root, spine, currDet⟩ := st
+  obtain ⟨doc, names, fix, sp, parsing, data, root, spine, depth, skip, currDet⟩ := st
   cases spine with
-  | cons f r => simp [result, mergeK, regF, hasElemF, appendKids, parentQ]
-  | nil => cases root <;> simp [result, mergeK, regF, hasElemF, appendKids, parentQ, attachToRoot]
+  | cons f r => simp [result, mergeK, regAllF, regN, hasElemF, appendKids, parentQ]
+  | nil => cases root <;> simp [result, mergeK, regAllF, regN, hasElemF, appendKids, parentQ, attachToRoot]
 
 theorem result_cdata (st : St) (s : Str) (t : Forest) :
     result { st with data := st.data ++ s } t = result st (.cons (.cdata s) t) := by
-  obtain ⟨doc, names, fix, sp, parsing, data, root, spine, currDet⟩ := st
+  obtain ⟨doc, names, fix, sp, parsing, data, root, spine, depth, skip, currDet⟩ := st
   cases spine with
-  | cons f r => simp [result, mergeK, regF, hasElemF, appendKids, parentQ]
-  | nil => cases root <;> simp [result, mergeK, regF, hasElemF, appendKids, parentQ, attachToRoot]
+  | cons f r => simp [result, mergeK, regAllF, regN, hasElemF, appendKids, parentQ]
+  | nil => cases root <;> simp [result, mergeK, regAllF, regN, hasElemF, appendKids, parentQ, attachToRoot]
 
 theorem result_elem (st : St) (q : QName) (a : List (QName × Str)) (kids t : Forest) :
     result (afterElem st q a kids) t = result st (.cons (.elem q a kids) t) := by
-  obtain ⟨doc, names, fix, sp, parsing, data, root, spine, currDet⟩ := st
+  obtain ⟨doc, names, fix, sp, parsing, data, root, spine, depth, skip, currDet⟩ := st
   cases spine with
   | cons f r =>
-    simp [result, afterElem, mergeK, regF, hasElemF, appendKids, parentQ, Frame.add, appF_assoc, appF_flushT]
+    simp [result, afterElem, mergeK, regAllF, hasElemF, appendKids, parentQ, Frame.add, appF_assoc, appF_flushT,
+      List.append_assoc]
   | nil =>
     cases root <;>
-      simp [result, afterElem, mergeK, regF, hasElemF, appendKids, parentQ, attachToRoot, appF_flushT, Doc.app_app]
+      simp [result, afterElem, mergeK, regAllF, hasElemF, appendKids, parentQ, attachToRoot, appF_flushT, Doc.app_app,
+        List.append_assoc]
 
 /-! #### invariants of the helper states -/
 
-theorem flushP_parsing (st : St) : (flushP st).parsing = st.parsing := by
-  rw [flushP_eq]; unfold appendKids; cases hs : st.spine <;> simp
-theorem flushP_fix (st : St) : (flushP st).fix = st.fix := by
-  rw [flushP_eq]; unfold appendKids; cases hs : st.spine <;> simp
-theorem flushP_names (st : St) : (flushP st).names = st.names := by
-  rw [flushP_eq]; unfold appendKids; cases hs : st.spine <;> simp
+theorem appendKids_fields (st : St) (ns : Forest) :
+    (appendKids st ns).parsing = st.parsing ∧ (appendKids st ns).fix = st.fix ∧ (appendKids st ns).names = st.names ∧
+    (appendKids st ns).data = st.data ∧ (appendKids st ns).currDet = st.currDet ∧
+    (appendKids st ns).stylesPart = st.stylesPart ∧ (appendKids st ns).root = st.root ∧
+    ((appendKids st ns).spine = [] ↔ st.spine = []) ∧ (appendKids st ns).depth = st.depth ∧
+    (appendKids st ns).skip = st.skip := by
+  unfold appendKids; cases hs : st.spine <;> simp [hs]
+
+theorem flushP_fields (st : St) :
+    (flushP st).parsing = st.parsing ∧ (flushP st).fix = st.fix ∧ (flushP st).names = st.names ∧
+    (flushP st).depth = st.depth ∧ (flushP st).skip = st.skip ∧ ((flushP st).spine = [] ↔ st.spine = []) ∧
+    (flushP st).root = st.root := by
+  rw [flushP_eq]
+  have := appendKids_fields st (flushT st.data .nil)
+  simp [this.1, this.2.1, this.2.2.1, this.2.2.2.2.2.2.1, this.2.2.2.2.2.2.2.1, this.2.2.2.2.2.2.2.2.1,
+    this.2.2.2.2.2.2.2.2.2]
+
 theorem flushP_parentQ (st : St) : parentQ (flushP st) = parentQ st := by
   rw [flushP_eq]
   have := parentQ_appendKids st (flushT st.data .nil)
@@ -462,12 +461,6 @@ theorem flushP_parentOK (st : St) (h : ParentOK st) : ParentOK (flushP st) := by
   rw [flushP_eq]
   have := parentOK_appendKids st (flushT st.data .nil) h
   simpa [ParentOK] using this
-
-theorem parentQ_openE (st : St) (q : QName) (a : List (QName × Str)) :
-    ∀ p, parentQ (openE st q a) = some p → p = q := by
-  intro p
-  unfold parentQ openE
-  cases st.root <;> simp <;> intro h <;> exact h.symm
 
 theorem afterElem_parentQ (st : St) (q : QName) (a : List (QName × Str)) (kids : Forest) :
     parentQ (afterElem st q a kids) = parentQ st := by
@@ -479,1025 +472,127 @@ theorem afterElem_parentOK (st : St) (q : QName) (a : List (QName × Str)) (kids
   have := parentOK_appendKids st (flushT st.data (.cons (.elem q a (mergeTF [] kids)) .nil)) h
   simpa [afterElem, ParentOK] using this
 
-theorem appendKids_fields (st : St) (ns : Forest) :
-    (appendKids st ns).parsing = st.parsing ∧ (appendKids st ns).fix = st.fix ∧ (appendKids st ns).names = st.names ∧
-    (appendKids st ns).data = st.data ∧ (appendKids st ns).currDet = st.currDet ∧
-    (appendKids st ns).stylesPart = st.stylesPart ∧ (appendKids st ns).root = st.root ∧
-    ((appendKids st ns).spine = [] ↔ st.spine = []) := by
-  unfold appendKids; cases hs : st.spine <;> simp [hs]
-
-/-- **the tree builder, inside an element**: from any state in which the parser is switched on and has a parent to
-    attach to, the events of a forest without section elements append exactly `mergeK` of the forest to that parent
-    and leave the trailing character data pending. -/
-theorem run_forest : (f : Forest) → (st : St) → st.parsing = true → ParentOK st → st.fix = [] →
-    noTrigF f = true → fresh st.names (regF (parentQ st) f) = true →
-    run st (evF f) = some (result st f)
-  | .nil, st, _, _, _, _, _ => by simp [evF, result_nil]
-  | .cons (.text s) t, st, hp, hok, hf, hnt, hfr => by
-    simp only [evF, evN, List.cons_append, List.nil_append, run_cons, step, Option.bind_some]
-    have hst : stepChars st s = { st with data := st.data ++ s } := by simp [stepChars, hp]
-    rw [hst, ← result_text]
-    refine run_forest t _ hp ?_ hf (by simpa [noTrigF, noTrigN] using hnt) (by simpa [regF, parentQ] using hfr)
-    simpa [ParentOK] using hok
-  | .cons (.cdata s) t, st, hp, hok, hf, hnt, hfr => by
-    simp only [evF, evN, List.cons_append, List.nil_append, run_cons, step, Option.bind_some]
-    have hst : stepChars st s = { st with data := st.data ++ s } := by simp [stepChars, hp]
-    rw [hst, ← result_cdata]
-    refine run_forest t _ hp ?_ hf (by simpa [noTrigF, noTrigN] using hnt) (by simpa [regF, parentQ] using hfr)
-    simpa [ParentOK] using hok
-  | .cons (.elem q a kids) t, st, hp, hok, hf, hnt, hfr => by
-    have hnt' : isTrigger q = false ∧ noTrigF kids = true ∧ noTrigF t = true := by
-      simpa [noTrigF, noTrigN, Bool.and_assoc] using hnt
-    obtain ⟨hq, hnk, hntt⟩ := hnt'
-    have hfr' : fresh st.names (regOne (parentQ st) q a) = true ∧
-        fresh (st.names ++ regOne (parentQ st) q a) (regF (parentQ st) t) = true := by
-      simpa [regF, fresh_append] using hfr
-    simp only [evF, evN, List.cons_append, List.append_assoc, run_cons, step]
-    rw [stepStart_inner st q a hp hok hf hq hfr'.1]
-    simp only [Option.bind_some]
-    -- the children
-    let st1 := openE (flushP st) q a
-    have h1p : st1.parsing = true := by simp [st1, openE, flushP_parsing, hp]
-    have h1ok : ParentOK st1 := by left; simp [st1, openE]
-    have h1f : st1.fix = [] := by simp [st1, openE, flushP_fix, hf]
-    have h1q : ∀ p, parentQ st1 = some p → isTrigger p = false := by
-      intro p hpq; rw [parentQ_openE _ _ _ p hpq]; exact hq
-    have h1r : regF (parentQ st1) kids = [] := regF_nontrigger _ h1q kids
-    have ihk := run_forest kids st1 h1p h1ok h1f hnk (by rw [h1r]; rfl)
-    rw [run_append, ihk]
-    simp only [Option.bind_some, run_cons]
-    -- the end tag
-    have hres := appendKids_fields st1 (mergeK st1.data kids).1
-    have h3p : (result st1 kids).parsing = true := by simp [result, hres.1, h1p]
-    have h3s : (result st1 kids).spine ≠ [] := by
-      simp only [result]; intro h; have := hres.2.2.2.2.2.2.2.mp h; simp [st1, openE] at this
-    have h3c : (result st1 kids).currDet = false := by simp [result, st1, openE]
-    rw [step, stepStop_inner _ q h3p h3s h3c hq]
-    simp only [Option.bind_some]
-    rw [elem_closed st q a kids h1r, ← result_elem]
-    -- the rest
-    refine run_forest t _ ?_ (afterElem_parentOK st q a kids hok) ?_ hntt ?_
-    · have := appendKids_fields st (flushT st.data (.cons (.elem q a (mergeTF [] kids)) .nil))
-      simp [afterElem, this.1, hp]
-    · have := appendKids_fields st (flushT st.data (.cons (.elem q a (mergeTF [] kids)) .nil))
-      simp [afterElem, this.2.1, hf]
-    · rw [afterElem_parentQ]
-      simpa [afterElem] using hfr'.2
-
-/-! ### sections: routing, and what is ignored -/
-
-/-- **C04 (routing)**: the document attribute a start tag is routed to.  `office:font-face-decls` is taken from
-    styles.xml only; the other seven section elements from whatever part they occur in. -/
-def route (stylesPart : Bool) (q : QName) : Option Sec :=
-  if !stylesPart && q = qFontFace then none else secOfTrigger q
-
-theorem routing_table :
-    route false qFontFace = none ∧ route true qFontFace = some .fontFace ∧
-    (∀ sp, route sp qAutoStyles = some .autoStyles ∧ route sp qBody = some .body ∧ route sp qMaster = some .master ∧
-      route sp qMeta = some .metaS ∧ route sp qScripts = some .scripts ∧ route sp qSettings = some .settings ∧
-      route sp qStyles = some .styles) := by
-  refine ⟨by decide, by decide, ?_⟩
-  intro sp; cases sp <;> decide
-
-theorem route_some_trigger {sp : Bool} {q : QName} {s : Sec} (h : route sp q = some s) :
-    isTrigger q = true ∧ secOfTrigger q = some s ∧ ¬(sp = false ∧ q = qFontFace) := by
-  unfold route at h
-  by_cases hc : (!sp && decide (q = qFontFace)) = true
-  · simp [hc] at h
-  · simp only [hc, Bool.false_eq_true, if_false] at h
-    refine ⟨by simp [isTrigger, h], h, ?_⟩
-    rintro ⟨h1, h2⟩; simp [h1, h2] at hc
-
-/-- while the parser is switched off, everything without a section element inside is skipped -/
-theorem run_ignored : (f : Forest) → (st : St) → st.parsing = false → noTrigF f = true → run st (evF f) = some st
+/-- inside a skipped font declaration nothing happens -/
+theorem run_skipping : (f : Forest) → (st : St) → st.parsing = true → st.skip ≠ 0 → run st (evF f) = some st
   | .nil, st, _, _ => rfl
-  | .cons (.text s) t, st, hp, hnt => by
+  | .cons (.text s) t, st, hp, hk => by
     simp only [evF, evN, List.cons_append, List.nil_append, run_cons, step, Option.bind_some]
-    have : stepChars st s = st := by simp [stepChars, hp]
-    rw [this]; exact run_ignored t st hp (by simpa [noTrigF, noTrigN] using hnt)
-  | .cons (.cdata s) t, st, hp, hnt => by
+    have : stepChars st s = st := by simp [stepChars, hk]
+    rw [this]; exact run_skipping t st hp hk
+  | .cons (.cdata s) t, st, hp, hk => by
     simp only [evF, evN, List.cons_append, List.nil_append, run_cons, step, Option.bind_some]
-    have : stepChars st s = st := by simp [stepChars, hp]
-    rw [this]; exact run_ignored t st hp (by simpa [noTrigF, noTrigN] using hnt)
-  | .cons (.elem q a kids) t, st, hp, hnt => by
-    have hnt' : isTrigger q = false ∧ noTrigF kids = true ∧ noTrigF t = true := by
-      simpa [noTrigF, noTrigN, Bool.and_assoc] using hnt
-    obtain ⟨hq, hnk, hntt⟩ := hnt'
-    have hstart : stepStart st q a = some st := by
-      unfold stepStart; simp [hq, hp]; cases st; simp_all
-    have hstop : stepStop st q = some st := by unfold stepStop; simp [hp]
+    have : stepChars st s = st := by simp [stepChars, hk]
+    rw [this]; exact run_skipping t st hp hk
+  | .cons (.elem q a kids) t, st, hp, hk => by
+    obtain ⟨st', hst'⟩ : ∃ s : St, s = { st with depth := st.depth + 1, skip := st.skip + 1 } := ⟨_, rfl⟩
+    have hstart : stepStart st q a = some st' := by
+      subst hst'; unfold stepStart; simp [hp, hk]
+    have hstop : stepStop st' q = some st := by
+      subst hst'; unfold stepStop; simp [hp]; cases st; simp
+    have hp' : st'.parsing = true := by subst hst'; exact hp
+    have hk' : st'.skip ≠ 0 := by subst hst'; simp
     simp only [evF, evN, List.cons_append, List.append_assoc, run_cons, step, hstart, Option.bind_some]
-    rw [run_append, run_ignored kids st hp hnk]
+    rw [run_append, run_skipping kids st' hp' hk']
     simp only [Option.bind_some, List.cons_append, List.nil_append, run_cons, step, hstop]
-    exact run_ignored t st hp hntt
+    exact run_skipping t st hp hk
 
-/-- the children a section receives from a section element with content `f`: the merged content — unless `f` has no
-    element child at all, in which case its character data is lost with the element LoadParser built and dropped -/
-def secContent (f : Forest) : Forest := if hasElemF f then mergeTF [] f else .nil
-
-def Idle (st : St) : Prop := st.parsing = false ∧ st.data = [] ∧ st.spine = [] ∧ st.currDet = false
-
-/-- the state after a whole section element -/
-def afterSection (st : St) (s : Sec) (a : List (QName × Str)) (kids : Forest) : St :=
-  { st with doc := (st.doc.putAttrs s a).app s (secContent kids)
-            names := st.names ++ regF (some (qOfSec s)) kids
-            root := if hasElemF kids then .top else .none }
-
-theorem settle_nil (st : St) (h : st.spine = []) : settle st = st := by simp [settle, h, collapse]
-
-/-- **C04 (one section)**: a section element met while the parser is idle puts `secContent` of its content into the
-    section it is routed to, puts its attributes `a` on the section object (`Doc.putAttrs`: later values overwrite),
-    registers the style names, and leaves the parser idle again. -/
-theorem run_section (st : St) (q : QName) (a : List (QName × Str)) (kids : Forest) (s : Sec)
-    (hi : Idle st) (hf : st.fix = []) (hr : route st.stylesPart q = some s) (hnt : noTrigF kids = true)
-    (hfr : fresh st.names (regF (some (qOfSec s)) kids) = true) :
-    run st (evN (.elem q a kids)) = some (afterSection st s a kids) := by
-  obtain ⟨htr, hsec, hnf⟩ := route_some_trigger hr
-  obtain ⟨hp, hd, hsp, hcd⟩ := hi
-  -- the start tag
-  let st1 : St := { st with doc := st.doc.putAttrs s a, parsing := true, root := .sec s, spine := [], currDet := true }
-  have hstart : stepStart st q a = some st1 := by
-    unfold stepStart
-    have hc : (!st.stylesPart && decide (q = qFontFace)) = false := by
-      cases hsp' : st.stylesPart <;> simp_all
-    simp only [htr, if_true, hc, Bool.false_eq_true, if_false, Bool.not_true, hd, List.isEmpty_nil, hsec]
-    rw [settle_nil _ (by simpa using hsp)]
-    simp [st1, hd]
-  have h1q : parentQ st1 = some (qOfSec s) := by simp [st1, parentQ]
-  have ihk := run_forest kids st1 rfl (Or.inr (Or.inr (Or.inr ⟨s, rfl⟩))) (by simpa [st1] using hf) hnt
-    (by rw [h1q]; simpa [st1] using hfr)
+/-- **a font declaration whose name is declared already is skipped with its subtree** (repair @@HASH-B@@): the state
+    after it is the state before it -/
+theorem run_skip (st : St) (q : QName) (a : List (QName × Str)) (kids : Forest) (hp : st.parsing = true)
+    (hsk : st.skip = 0) (hfd : fontDeclared st q a = true) : run st (evN (.elem q a kids)) = some st := by
+  obtain ⟨st', hst'⟩ : ∃ s : St, s = { st with depth := st.depth + 1, skip := 1 } := ⟨_, rfl⟩
+  have hstart : stepStart st q a = some st' := by
+    subst hst'; unfold stepStart; simp [hp, hsk, hfd]
+  have hstop : stepStop st' q = some st := by
+    subst hst'; unfold stepStop; simp [hp]; cases st; simp_all
+  have hp' : st'.parsing = true := by subst hst'; exact hp
+  have hk' : st'.skip ≠ 0 := by subst hst'; simp
   simp only [evN, run_cons, step, hstart, Option.bind_some]
-  rw [run_append, ihk]
-  simp only [Option.bind_some, run_cons, run_nil, step]
-  -- the end tag
-  have hK := mergeTF_eq [] kids
-  obtain ⟨doc, names, fix, stp, parsing, data, root, spine, currDet⟩ := st
-  simp only at hp hd hsp hcd hf
-  subst hp hd hsp hcd hf
-  by_cases he : hasElemF kids = true
-  · by_cases hk2 : (mergeK [] kids).2.isEmpty = true
-    · have hk2' := isEmpty_eq_nil hk2
-      simp [stepStop, result, st1, appendKids, attachToRoot, h1q, he, hk2', htr, afterSection, secContent, hK, flushT]
-    · simp [stepStop, result, st1, appendKids, attachToRoot, h1q, he, hk2, htr, afterSection, secContent, hK, flushT,
-        addToCurr, addToParent, Doc.app_app]
-  · have he' : hasElemF kids = false := by simpa using he
-    have hk1 := mergeK_noElem [] kids he'
-    by_cases hk2 : (mergeK [] kids).2.isEmpty = true
-    · have hk2' := isEmpty_eq_nil hk2
-      simp [stepStop, result, st1, appendKids, attachToRoot, h1q, he', hk2', htr, afterSection, secContent, hk1,
-        Doc.app_nil]
-    · simp [stepStop, result, st1, appendKids, attachToRoot, h1q, he', hk2, htr, afterSection, secContent, hk1,
-        Doc.app_nil, addToCurr]
-
-/-! ### a whole part -/
-
-/-- the top-level children of a part are section elements without nested section elements and with fresh style
-    names, or things that are skipped (white space, other elements, office:font-face-decls outside styles.xml) -/
-def partKidsOK (sp : Bool) (names : List Str) : Forest → Bool
-  | .nil => true
-  | .cons (.text _) t => partKidsOK sp names t
-  | .cons (.cdata _) t => partKidsOK sp names t
-  | .cons (.elem q _ kids) t =>
-    match route sp q with
-    | some s => noTrigF kids && fresh names (regF (some (qOfSec s)) kids) &&
-                partKidsOK sp (names ++ regF (some (qOfSec s)) kids) t
-    | none => noTrigF kids && (isTrigger q → q = qFontFace) && partKidsOK sp names t
-
-/-- **what a part contributes to the document** (closed form): every routed section element appends `secContent` of
-    its content to its section; everything else is skipped -/
-def loadKids (sp : Bool) (l : Loaded) : Forest → Loaded
-  | .nil => l
-  | .cons (.text _) t => loadKids sp l t
-  | .cons (.cdata _) t => loadKids sp l t
-  | .cons (.elem q a kids) t =>
-    match route sp q with
-    | some s => loadKids sp ⟨(l.doc.putAttrs s a).app s (secContent kids), l.names ++ regF (some (qOfSec s)) kids, l.fix⟩ t
-    | none => loadKids sp l t
-
-def afterKids (st : St) : Forest → St
-  | .nil => st
-  | .cons (.text _) t => afterKids st t
-  | .cons (.cdata _) t => afterKids st t
-  | .cons (.elem q a kids) t =>
-    match route st.stylesPart q with
-    | some s => afterKids (afterSection st s a kids) t
-    | none => afterKids st t
-
-theorem afterSection_idle (st : St) (s : Sec) (a : List (QName × Str)) (kids : Forest) (h : Idle st) :
-    Idle (afterSection st s a kids) := by
-  simpa [Idle, afterSection] using h
-
-theorem run_skip_elem (st : St) (q : QName) (a : List (QName × Str)) (kids : Forest) (hp : st.parsing = false)
-    (hr : route st.stylesPart q = none) (hq : isTrigger q = true → q = qFontFace) (hnk : noTrigF kids = true) :
-    run st (evN (.elem q a kids)) = some st := by
-  have hstart : stepStart st q a = some st := by
-    unfold stepStart
-    by_cases ht : isTrigger q = true
-    · have hqf := hq ht
-      have hsp : st.stylesPart = false := by
-        cases h : st.stylesPart with
-        | false => rfl
-        | true => simp [route, h, hqf] at hr; simp [isTrigger, hr, hqf] at ht
-      simp [ht, hsp, hqf]; cases st; simp_all
-    · simp [ht, hp]; cases st; simp_all
-  have hstop : stepStop st q = some st := by unfold stepStop; simp [hp]
-  simp only [evN, run_cons, step, hstart, Option.bind_some]
-  rw [run_append, run_ignored kids st hp hnk]
+  rw [run_append, run_skipping kids st' hp' hk']
   simp [run_cons, step, hstop]
 
-theorem run_partKids : (f : Forest) → (st : St) → Idle st → st.fix = [] →
-    partKidsOK st.stylesPart st.names f = true → run st (evF f) = some (afterKids st f)
-  | .nil, st, _, _, _ => rfl
-  | .cons (.text s) t, st, hi, hf, hok => by
-    simp only [evF, evN, List.cons_append, List.nil_append, run_cons, step, Option.bind_some]
-    have : stepChars st s = st := by simp [stepChars, hi.1]
-    rw [this]; exact run_partKids t st hi hf (by simpa [partKidsOK] using hok)
-  | .cons (.cdata s) t, st, hi, hf, hok => by
-    simp only [evF, evN, List.cons_append, List.nil_append, run_cons, step, Option.bind_some]
-    have : stepChars st s = st := by simp [stepChars, hi.1]
-    rw [this]; exact run_partKids t st hi hf (by simpa [partKidsOK] using hok)
-  | .cons (.elem q a kids) t, st, hi, hf, hok => by
-    simp only [evF]
-    rw [run_append]
-    cases hr : route st.stylesPart q with
-    | some s =>
-      simp only [partKidsOK, hr, Bool.and_eq_true] at hok
-      rw [run_section st q a kids s hi hf hr hok.1.1 hok.1.2]
-      simp only [Option.bind_some, afterKids, hr]
-      exact run_partKids t _ (afterSection_idle st s a kids hi) (by simpa [afterSection] using hf)
-        (by simpa [afterSection] using hok.2)
-    | none =>
-      simp only [partKidsOK, hr, Bool.and_eq_true, decide_eq_true_eq] at hok
-      rw [run_skip_elem st q a kids hi.1 hr hok.1.2 hok.1.1]
-      simp only [Option.bind_some, afterKids, hr]
-      exact run_partKids t st hi hf hok.2
-
-theorem afterKids_loaded : (f : Forest) → (st : St) →
-    (⟨(afterKids st f).doc, (afterKids st f).names, (afterKids st f).fix⟩ : Loaded) =
-      loadKids st.stylesPart ⟨st.doc, st.names, st.fix⟩ f ∧ (afterKids st f).spine = st.spine ∧
-      (afterKids st f).parsing = st.parsing
-  | .nil, st => ⟨rfl, rfl, rfl⟩
-  | .cons (.text _) t, st => by simpa [afterKids, loadKids] using afterKids_loaded t st
-  | .cons (.cdata _) t, st => by simpa [afterKids, loadKids] using afterKids_loaded t st
-  | .cons (.elem q a kids) t, st => by
-    cases hr : route st.stylesPart q with
-    | some s =>
-      have := afterKids_loaded t (afterSection st s a kids)
-      simpa [afterKids, loadKids, hr, afterSection] using this
-    | none => simpa [afterKids, loadKids, hr] using afterKids_loaded t st
-
-/-- **C04 (build_events)**: LoadParser on the event stream of a whole part `<root …> sections </root>`.
-    For every part whose top-level children satisfy `partKidsOK`, the run succeeds and the document afterwards is
-    `loadKids` of the children: each routed section element appended `secContent` of its content to its section
-    and put its attributes on the section object, the root element, white space between the sections and (outside styles.xml)
-    office:font-face-decls contributed nothing. -/
-theorem build_events (sp : Bool) (l : Loaded) (rq : QName) (ra : List (QName × Str)) (secs : Forest)
-    (hf : l.fix = []) (hrq : isTrigger rq = false) (hok : partKidsOK sp l.names secs = true) :
-    loadPart sp l (evN (.elem rq ra secs)) = some (loadKids sp l secs) := by
-  unfold loadPart
-  obtain ⟨st0, hst0⟩ : ∃ st0 : St, st0 = { doc := l.doc, names := l.names, fix := l.fix, stylesPart := sp } := ⟨_, rfl⟩
-  rw [← hst0]
-  have hi : Idle st0 := by subst hst0; exact ⟨rfl, rfl, rfl, rfl⟩
-  have hstart : stepStart st0 rq ra = some st0 := by subst hst0; unfold stepStart; simp [hrq]
-  have hk := run_partKids secs st0 hi (by subst hst0; exact hf) (by subst hst0; exact hok)
-  have hstop : ∀ st : St, st.parsing = false → stepStop st rq = some st := by
-    intro st h; unfold stepStop; simp [h]
-  obtain ⟨hl, hsp, hpar⟩ := afterKids_loaded secs st0
-  have hap : (afterKids st0 secs).parsing = false := by rw [hpar]; exact hi.1
-  simp only [evN, run_cons, step, hstart, Option.bind_some]
-  rw [run_append, hk]
-  simp only [Option.bind_some, run_cons, step, hstop _ hap, run_nil]
-  rw [settle_nil _ (by rw [hsp]; exact hi.2.2.1)]
-  subst hst0
-  simpa using congrArg some hl
-
-/-! ### canonical forests: what a parser delivers is rebuilt exactly -/
-
-def startsChar : Forest → Bool
-  | .cons (.text _) _ => true
-  | .cons (.cdata _) _ => true
-  | _ => false
-
-/-- no CDATA node, no empty text node, no two adjacent text nodes — at every level -/
-def canonB : Forest → Bool
-  | .nil => true
-  | .cons (.text s) t => !s.isEmpty && !startsChar t && canonB t
-  | .cons (.cdata _) _ => false
-  | .cons (.elem _ _ k) t => canonB k && canonB t
-
-def prependT (acc : Str) : Forest → Forest
-  | .cons (.text s) t => .cons (.text (acc ++ s)) t
-  | f => flushT acc f
-
-theorem prependT_nil (f : Forest) : prependT [] f = f := by
-  cases f with
-  | nil => rfl
-  | cons h t => cases h <;> simp [prependT, flushT]
-
-theorem mergeTF_canon : (f : Forest) → (acc : Str) → canonB f = true → mergeTF acc f = prependT acc f
-  | .nil, acc, _ => rfl
-  | .cons (.cdata _) _, _, h => by simp [canonB] at h
-  | .cons (.elem q a k) t, acc, h => by
-    simp only [canonB, Bool.and_eq_true] at h
-    rw [mergeTF, mergeTF_canon k [] h.1, mergeTF_canon t [] h.2, prependT_nil, prependT_nil]
-    rfl
-  | .cons (.text s) t, acc, h => by
-    simp only [canonB, Bool.and_eq_true, Bool.not_eq_true'] at h
-    obtain ⟨⟨hs, hst⟩, hc⟩ := h
-    have hne : (acc ++ s).isEmpty = false := by cases s <;> simp_all
-    cases t with
-    | nil => simp [mergeTF, prependT, flushT, hne]
-    | cons h' t' =>
-      cases h' with
-      | text _ => simp [startsChar] at hst
-      | cdata _ => simp [startsChar] at hst
-      | elem q a k =>
-        have := mergeTF_canon (.cons (.elem q a k) t') (acc ++ s) hc
-        simp only [mergeTF] at this ⊢
-        rw [this]; simp [prependT, flushT, hne]
-
-/-- **a canonical forest is rebuilt as it is** (mixed content in order, white-space-only text kept, nothing
-    stripped, nothing merged because nothing is adjacent) -/
-theorem mergeTF_canon_id (f : Forest) (h : canonB f = true) : mergeTF [] f = f := by
-  rw [mergeTF_canon f [] h, prependT_nil]
-
-theorem canonB_flushT (acc : Str) (f : Forest) (hf : canonB f = true) (hs : startsChar f = false) :
-    canonB (flushT acc f) = true := by
-  unfold flushT
-  by_cases h : acc.isEmpty = true
-  · simp [h, hf]
-  · simp [h, canonB, hf, hs]
-
-theorem canonB_canonTF (acc : Str) (f : Forest) : canonB (canonTF acc f) = true := by
-  fun_induction canonTF acc f with
-  | case1 acc => exact canonB_flushT acc .nil rfl rfl
-  | case2 acc s t ih => exact ih
-  | case3 acc s t ih => exact ih
-  | case4 acc q a kids t ih1 ih2 => exact canonB_flushT acc _ (by simp [canonB, ih1, ih2]) rfl
-
-theorem hasElemF_flushT (acc : Str) (f : Forest) : hasElemF (flushT acc f) = hasElemF f := by
-  unfold flushT; split <;> simp [hasElemF]
-
-theorem hasElemF_canonTF (acc : Str) (f : Forest) : hasElemF (canonTF acc f) = hasElemF f := by
-  fun_induction canonTF acc f with
-  | case1 acc => simp [hasElemF_flushT, hasElemF]
-  | case2 acc s t ih => simpa [hasElemF] using ih
-  | case3 acc s t ih => simpa [hasElemF] using ih
-  | case4 acc q a kids t ih1 ih2 => simp [hasElemF_flushT, hasElemF]
-
-/-- what `load` makes of a section that `save` wrote with content `f` -/
-def lsec (f : Forest) : Forest := secContent (canonTF [] f)
-
-/-- … is the canonical form of `f`; only a section whose whole content is character data loses it -/
-theorem lsec_eq (f : Forest) : lsec f = if hasElemF f then canonTF [] f else .nil := by
-  simp [lsec, secContent, hasElemF_canonTF, mergeTF_canon_id _ (canonB_canonTF [] f)]
-
-mutual
-theorem noTrigN_canon : (n : Node) → noTrigN n = true → noTrigN (canonT n) = true
-  | .text _, _ => rfl
-  | .cdata _, _ => rfl
-  | .elem q a k, h => by
-    simp only [noTrigN, Bool.and_eq_true] at h
-    simp [canonT, noTrigN, h.1, noTrigF_canonTF k [] h.2]
-theorem noTrigF_canonTF : (f : Forest) → (acc : Str) → noTrigF f = true → noTrigF (canonTF acc f) = true
-  | .nil, acc, _ => by unfold canonTF flushT; split <;> simp [noTrigF, noTrigN]
-  | .cons (.text s) t, acc, h => by
-    simp only [noTrigF, noTrigN, Bool.true_and] at h
-    simpa [canonTF] using noTrigF_canonTF t _ h
-  | .cons (.cdata s) t, acc, h => by
-    simp only [noTrigF, noTrigN, Bool.true_and] at h
-    simpa [canonTF] using noTrigF_canonTF t _ h
-  | .cons (.elem q a k) t, acc, h => by
-    simp only [noTrigF, noTrigN, Bool.and_eq_true] at h
-    unfold canonTF flushT
-    split <;> simp [noTrigF, noTrigN, h.1.1, noTrigF_canonTF k [] h.1.2, noTrigF_canonTF t [] h.2]
-end
-
-/-! ### the composite: load what save wrote -/
-
-/-- the section objects of the document carry no attributes of their own (true of every document built through the
-    API: none of the eight section elements has an attribute in the schema) -/
-def allSecs : List Sec := [.autoStyles, .body, .fontFace, .master, .metaS, .scripts, .settings, .styles]
-def noSecAttrs (d : Doc) : Bool := allSecs.all (fun s => (d.sattrs s).isEmpty)
-
-theorem noSecAttrs_at (d : Doc) (h : noSecAttrs d = true) (s : Sec) : d.sattrs s = [] := by
-  simp only [noSecAttrs, allSecs, List.all_cons, List.all_nil, Bool.and_true, Bool.and_eq_true] at h
-  cases s <;> apply isEmpty_eq_nil' <;> simp [h]
-where isEmpty_eq_nil' {α} {l : List α} (h : l.isEmpty = true) : l = [] := by cases l <;> simp_all
-
-/-- a section element written without attributes -/
-def secEl0 (s : Sec) (f : Forest) : Node := .elem (qOfSec s) [] f
-def ifKids0 (s : Sec) (f : Forest) : Forest :=
-  match f with
-  | .nil => .nil
-  | f => .cons (secEl0 s f) .nil
-
-theorem secEl_eq (d : Doc) (h : noSecAttrs d = true) (s : Sec) (f : Forest) : secEl d s f = secEl0 s f := by
-  simp [secEl, secEl0, noSecAttrs_at d h s]
-theorem ifKids_eq (d : Doc) (h : noSecAttrs d = true) (s : Sec) (f : Forest) : ifKids d s f = ifKids0 s f := by
-  cases f <;> simp [ifKids, ifKids0, secEl_eq d h]
-theorem autoEl_eq (f : Forest) : autoEl f = secEl0 .autoStyles f := rfl
-
-theorem putAttrs_nil_doc (d : Doc) (s : Sec) : d.putAttrs s [] = d := by
-  have : (fun s' => if s' = s then putAttrs (d.sattrs s) [] else d.sattrs s') = d.sattrs := by
-    funext s'; by_cases h : s' = s <;> simp [h, putAttrs]
-  simp [Doc.putAttrs, this]
-
-theorem canonTF_cons_elem (q : QName) (a : List (QName × Str)) (k t : Forest) :
-    canonTF [] (.cons (.elem q a k) t) = .cons (.elem q (huAttrsQ a) (canonTF [] k)) (canonTF [] t) := by
-  simp [canonTF, flushT]
-
-theorem canonTF_nil : canonTF [] .nil = .nil := by simp [canonTF, flushT]
-
-theorem lsec_nil : lsec .nil = .nil := by simp [lsec_eq, hasElemF]
-
-theorem regF_sec_other (s : Sec) (h1 : s ≠ .styles) (h2 : s ≠ .autoStyles) (f : Forest) :
-    regF (some (qOfSec s)) f = [] := by
-  have key : ∀ q a, regOne (some (qOfSec s)) q a = [] := by
-    intro q a
-    unfold regOne
-    have e1 : qOfSec s ≠ qStyles := by cases s <;> first | exact absurd rfl h1 | decide
-    have e2 : qOfSec s ≠ qAutoStyles := by cases s <;> first | exact absurd rfl h2 | decide
-    simp [e1, e2]
-  have : ∀ f : Forest, regF (some (qOfSec s)) f = [] := by
-    intro f
-    fun_induction regF (some (qOfSec s)) f with
-    | case1 => rfl
-    | case2 q a k t ih => simp [key, ih]
-    | case3 _ t ih => exact ih
-    | case4 _ t ih => exact ih
-  exact this f
-
-theorem route_of_sec (sp : Bool) (s : Sec) (h : s = .fontFace → sp = true) : route sp (qOfSec s) = some s := by
-  cases s <;> cases sp <;> first | decide | (exact absurd (h rfl) (by decide))
-
-/-- a written section element, read back -/
-theorem loadKids_secEl0 (sp : Bool) (l : Loaded) (s : Sec) (f g : Forest) (hr : route sp (qOfSec s) = some s) :
-    loadKids sp l (canonTF [] (.cons (secEl0 s f) g)) =
-      loadKids sp ⟨l.doc.app s (lsec f), l.names ++ regF (some (qOfSec s)) (canonTF [] f), l.fix⟩ (canonTF [] g) := by
-  simp [secEl0, canonTF_cons_elem, loadKids, hr, lsec, huAttrsQ, putAttrs_nil_doc]
-
-theorem loadKids_ifKids0 (sp : Bool) (l : Loaded) (s : Sec) (f g : Forest) (hr : route sp (qOfSec s) = some s) :
-    loadKids sp l (canonTF [] (appF (ifKids0 s f) g)) =
-      loadKids sp ⟨l.doc.app s (lsec f), l.names ++ regF (some (qOfSec s)) (canonTF [] f), l.fix⟩ (canonTF [] g) := by
-  cases f with
-  | nil => simp [ifKids0, lsec_nil, Doc.app_nil, canonTF_nil, regF]
-  | cons h t => simpa [ifKids0] using loadKids_secEl0 sp l s (.cons h t) g hr
-
-theorem loadKids_ifKids_skip (l : Loaded) (f g : Forest) :
-    loadKids false l (canonTF [] (appF (ifKids0 .fontFace f) g)) = loadKids false l (canonTF [] g) := by
-  have hr : route false qFontFace = none := by decide
-  cases f with
-  | nil => simp [ifKids0]
-  | cons h t => simp [ifKids0, secEl0, canonTF_cons_elem, loadKids, qOfSec, hr]
-
-theorem partKidsOK_secEl0 (sp : Bool) (names : List Str) (s : Sec) (f g : Forest) (hr : route sp (qOfSec s) = some s) :
-    partKidsOK sp names (canonTF [] (.cons (secEl0 s f) g)) =
-      (noTrigF (canonTF [] f) && fresh names (regF (some (qOfSec s)) (canonTF [] f)) &&
-        partKidsOK sp (names ++ regF (some (qOfSec s)) (canonTF [] f)) (canonTF [] g)) := by
-  simp [secEl0, canonTF_cons_elem, partKidsOK, hr]
-
-theorem partKidsOK_ifKids0 (sp : Bool) (names : List Str) (s : Sec) (f g : Forest) (hr : route sp (qOfSec s) = some s)
-    (hn : noTrigF (canonTF [] f) = true) (hfr : fresh names (regF (some (qOfSec s)) (canonTF [] f)) = true)
-    (hg : partKidsOK sp (names ++ regF (some (qOfSec s)) (canonTF [] f)) (canonTF [] g) = true) :
-    partKidsOK sp names (canonTF [] (appF (ifKids0 s f) g)) = true := by
-  cases f with
-  | nil => simpa [ifKids0, canonTF_nil, regF] using hg
-  | cons h t => simp [ifKids0, partKidsOK_secEl0 sp names s _ g hr, hn, hfr, hg]
-
-theorem partKidsOK_ifKids_skip (names : List Str) (f g : Forest) (hn : noTrigF (canonTF [] f) = true)
-    (hg : partKidsOK false names (canonTF [] g) = true) :
-    partKidsOK false names (canonTF [] (appF (ifKids0 .fontFace f) g)) = true := by
-  have hr : route false qFontFace = none := by decide
-  cases f with
-  | nil => simpa [ifKids0] using hg
-  | cons h t => simp [ifKids0, secEl0, canonTF_cons_elem, partKidsOK, qOfSec, hr, hn, hg]
-
-theorem trig_roots : isTrigger qDocContent = false ∧ isTrigger qDocStyles = false ∧ isTrigger qDocMeta = false ∧
-    isTrigger qDocSettings = false := by decide
-
-theorem nt (f : Forest) (h : noTrigF f = true) : noTrigF (canonTF [] f) = true := noTrigF_canonTF f [] h
-
-/-- settings.xml / meta.xml: one section, no style names -/
-theorem part_single (l : Loaded) (rq : QName) (s : Sec) (f : Forest) (hf : l.fix = []) (hrq : isTrigger rq = false)
-    (hs1 : s ≠ .styles) (hs2 : s ≠ .autoStyles) (hs3 : s ≠ .fontFace) (hn : noTrigF f = true) :
-    loadPart false l (evN (canonT (.elem rq verAttrs (.cons (secEl0 s f) .nil)))) =
-      some ⟨l.doc.app s (lsec f), l.names, []⟩ := by
-  have hr := route_of_sec false s (fun h => absurd h hs3)
-  have hreg := regF_sec_other s hs1 hs2 (canonTF [] f)
-  simp only [canonT]
-  rw [build_events false l rq _ _ hf hrq]
-  · rw [loadKids_secEl0 false l s f .nil hr, hreg]
-    simp [canonTF_nil, loadKids, hf]
-  · rw [partKidsOK_secEl0 false l.names s f .nil hr, hreg]
-    simp [nt f hn, fresh, canonTF_nil, partKidsOK]
-
-theorem part_content (l : Loaded) (d : Doc) (uc : Forest) (hsa : noSecAttrs d = true) (hf : l.fix = [])
-    (h1 : noTrigF d.scripts = true) (h2 : noTrigF d.fontFace = true) (h3 : noTrigF uc = true)
-    (h4 : noTrigF d.body = true) (hfr : fresh l.names (regF (some qAutoStyles) (canonTF [] uc)) = true) :
-    loadPart false l (evN (canonT (contentTree d uc))) =
-      some ⟨((l.doc.app .scripts (lsec d.scripts)).app .autoStyles (lsec uc)).app .body (lsec d.body),
-            l.names ++ regF (some qAutoStyles) (canonTF [] uc), []⟩ := by
-  have r1 := route_of_sec false .scripts (by intro h; cases h)
-  have r2 := route_of_sec false .autoStyles (by intro h; cases h)
-  have r3 := route_of_sec false .body (by intro h; cases h)
-  have g1 := regF_sec_other .scripts (by decide) (by decide)
-  have g3 := regF_sec_other .body (by decide) (by decide)
-  simp only [canonT, contentTree, secEl_eq d hsa, ifKids_eq d hsa, autoEl_eq]
-  rw [build_events false l _ _ _ hf trig_roots.1]
-  · rw [loadKids_ifKids0 false l .scripts _ _ r1, loadKids_ifKids_skip, loadKids_secEl0 false _ .autoStyles _ _ r2,
-      loadKids_secEl0 false _ .body _ _ r3, g1, g3]
-    simp [canonTF_nil, loadKids, hf, qOfSec]
-  · refine partKidsOK_ifKids0 false _ .scripts _ _ r1 (nt _ h1) (by rw [g1]; rfl) ?_
-    rw [g1, List.append_nil]
-    refine partKidsOK_ifKids_skip _ _ _ (nt _ h2) ?_
-    rw [partKidsOK_secEl0 false _ .autoStyles _ _ r2, partKidsOK_secEl0 false _ .body _ _ r3, g3]
-    simp [nt _ h3, nt _ h4, fresh, canonTF_nil, partKidsOK]
-    simpa [qOfSec] using hfr
-
-theorem part_styles (l : Loaded) (d : Doc) (us : Forest) (hsa : noSecAttrs d = true) (hf : l.fix = [])
-    (h1 : noTrigF d.fontFace = true) (h2 : noTrigF d.styles = true) (h3 : noTrigF us = true)
-    (h4 : noTrigF d.master = true)
-    (hfr : fresh l.names (regF (some qStyles) (canonTF [] d.styles) ++ regF (some qAutoStyles) (canonTF [] us)) = true) :
-    loadPart true l (evN (canonT (stylesTree d us))) =
-      some ⟨(((l.doc.app .fontFace (lsec d.fontFace)).app .styles (lsec d.styles)).app .autoStyles (lsec us)).app
-              .master (lsec d.master),
-            l.names ++ regF (some qStyles) (canonTF [] d.styles) ++ regF (some qAutoStyles) (canonTF [] us), []⟩ := by
-  have r1 := route_of_sec true .fontFace (fun _ => rfl)
-  have r2 := route_of_sec true .styles (fun _ => rfl)
-  have r3 := route_of_sec true .autoStyles (fun _ => rfl)
-  have r4 := route_of_sec true .master (fun _ => rfl)
-  have g1 := regF_sec_other .fontFace (by decide) (by decide)
-  have g4 := regF_sec_other .master (by decide) (by decide)
-  rw [fresh_append] at hfr
-  simp only [Bool.and_eq_true] at hfr
-  have hmast : ∀ g : Forest, appF (ifKids0 .master d.master) .nil = ifKids0 .master d.master := fun _ => appF_nil_right _
-  simp only [canonT, stylesTree, secEl_eq d hsa, ifKids_eq d hsa, autoEl_eq]
-  rw [build_events true l _ _ _ hf trig_roots.2.1]
-  · rw [loadKids_ifKids0 true l .fontFace _ _ r1, loadKids_secEl0 true _ .styles _ _ r2,
-      loadKids_secEl0 true _ .autoStyles _ _ r3, ← appF_nil_right (ifKids0 .master d.master),
-      loadKids_ifKids0 true _ .master _ _ r4, g1, g4]
-    simp [canonTF_nil, loadKids, hf, qOfSec, List.append_assoc]
-  · refine partKidsOK_ifKids0 true _ .fontFace _ _ r1 (nt _ h1) (by rw [g1]; rfl) ?_
-    rw [g1, List.append_nil, partKidsOK_secEl0 true _ .styles _ _ r2, partKidsOK_secEl0 true _ .autoStyles _ _ r3]
-    simp only [Bool.and_eq_true]
-    refine ⟨⟨nt _ h2, by simpa [qOfSec] using hfr.1⟩, ⟨nt _ h3, by simpa [qOfSec] using hfr.2⟩, ?_⟩
-    rw [← appF_nil_right (ifKids0 .master d.master)]
-    exact partKidsOK_ifKids0 true _ .master _ _ r4 (nt _ h4) (by rw [g4]; rfl) (by simp [canonTF_nil, partKidsOK])
-
-/-- the XML leg's hypothesis (C02's): an admissible namespace table that covers the four trees -/
-structure XmlOK (tbl : NsTable) (tv : Str) (d : Doc) (uc us : Forest) : Prop where
-  table : TableOK tbl
-  clean : NsClean tbl
-  content : TreeOK tbl (contentTree d uc)
-  styles : TreeOK tbl (stylesTree d us)
-  metaT : TreeOK tbl (metaTree tv d)
-  settings : TreeOK tbl (settingsTree d)
-
-/-- the load leg's hypothesis, decidable (`DocOK` of DESIGN.md = `XmlOK ∧ LoadOK`):
-    * no section element (office:body, office:styles, … — `LoadParser.triggers`) nested inside a section
-      (`finding_nested_section` shows what happens otherwise);
-    * the style:style names registered while loading — automatic styles of content.xml, common styles, automatic
-      styles of styles.xml, in this order — are pairwise distinct (no rename by `__register_stylename`: C11's subject);
-    * the section objects carry no attributes of their own (`noSecAttrs`; since fix 2a48e47 such attributes do survive
-      a load — `run_section`, C05 `section_attributes_kept` — but `office:automatic-styles` is written as a fresh
-      element, so stating the general case would need one more exception). -/
-def LoadOK (tv : Str) (d : Doc) (uc us : Forest) : Bool :=
-  noSecAttrs d && noTrigF d.settings && noTrigF (normGen tv d.metaS) && noTrigF d.scripts && noTrigF d.fontFace && noTrigF uc &&
-  noTrigF d.body && noTrigF d.styles && noTrigF us && noTrigF d.master &&
-  fresh [] (regF (some qAutoStyles) (canonTF [] uc) ++
-            (regF (some qStyles) (canonTF [] d.styles) ++ regF (some qAutoStyles) (canonTF [] us)))
-
-/-- what `load(save(d))` holds: every section in canonical form (`lsec`), the generator normalised, the automatic
-    styles that were written (content.xml's first, then styles.xml's) -/
-def expected (tv : Str) (d : Doc) (uc us : Forest) : Doc :=
-  { settings := lsec d.settings, metaS := lsec (normGen tv d.metaS), scripts := lsec d.scripts,
-    autoStyles := appF (lsec uc) (lsec us), body := lsec d.body, fontFace := lsec d.fontFace,
-    styles := lsec d.styles, master := lsec d.master }
-
-/-- `__loadxmlparts` on the saved package: settings.xml only if it was written -/
-def loadSaved (ws : Bool) (eS eM eC eY : List Event) : Option Loaded :=
-  loadParts {} ((if ws then [(sSettingsXml, eS)] else []) ++ [(sMetaXml, eM), (sContentXml, eC), (sStylesXml, eY)])
-
-/-- the statement of C04 at model level, for given trees: each written part is accepted by the reference parser,
-    and LoadParser, fed the event stream of what the parser returns under ANY chunking, rebuilds `expected` -/
-def LoadsBack (tbl : NsTable) (tv : Str) (d : Doc) (uc us : Forest) : Prop :=
-  ∃ tS tM tC tY : Node,
-    parseDoc (render tbl (settingsTree d)) = some tS ∧ parseDoc (render tbl (metaTree tv d)) = some tM ∧
-    parseDoc (render tbl (contentTree d uc)) = some tC ∧ parseDoc (render tbl (stylesTree d us)) = some tY ∧
-    ∀ eS eM eC eY : List Event, Chunked (evN tS) eS → Chunked (evN tM) eM → Chunked (evN tC) eC → Chunked (evN tY) eY →
-      ∃ names, loadSaved (writesSettings d) eS eM eC eY = some ⟨expected tv d uc us, names, []⟩
-
-/-- **C04, FULL STATEMENT**: every document that can be written is loaded back.  FALSE on the current tree
-    (`finding_nested_section`, and C11's renames); proved below as `load_save_partial` under `LoadOK`. -/
-def FullStatement : Prop :=
-  ∀ (tbl : NsTable) (tv : Str) (d : Doc) (uc us : Forest), XmlOK tbl tv d uc us → LoadsBack tbl tv d uc us
-
-theorem loadPart_chunked (sp : Bool) (l : Loaded) (evs evs' : List Event) (h : Chunked evs evs') :
-    loadPart sp l evs' = loadPart sp l evs := by
-  unfold loadPart; rw [build_chunk_invariant evs evs' h]
-
-theorem sp_names : stylesPartOf sSettingsXml = false ∧ stylesPartOf sMetaXml = false ∧
-    stylesPartOf sContentXml = false ∧ stylesPartOf sStylesXml = true := by decide
-
-theorem empty_app (s : Sec) (f : Forest) : (({} : Doc).app s f).get s = f := by
-  cases s <;> simp [Doc.app, Doc.set, Doc.get]
-
-/-- **C04 (load_save, partial)**: for every document `d` (eight sections), every selection `uc` / `us` of automatic
-    styles written to content.xml / styles.xml and every admissible namespace table: what `save` writes is accepted
-    by the reference parser, and `load` — LoadParser over the SAX events of the parsed parts, character data chunked
-    in any way, parts in the order settings, meta, content, styles — yields exactly `expected`: each section in
-    canonical form, meta with exactly one generator (`normGen`), the written automatic styles.
-    Restrictions (`LoadOK`): no section element nested inside a section; no style-name collision (C11).
-    Not in the model: attribute converters (values are fixed points: C15), which automatic styles are written (C10:
-    `uc`, `us` are parameters), the zip container, pictures and sub-documents (C03/C16 and the oracle), expat
-    (trusted to deliver the events of the infoset the reference parser computes). -/
-theorem load_save_partial (tbl : NsTable) (tv : Str) (d : Doc) (uc us : Forest)
-    (hx : XmlOK tbl tv d uc us) (hl : LoadOK tv d uc us = true) : LoadsBack tbl tv d uc us := by
-  simp only [LoadOK, Bool.and_eq_true] at hl
-  obtain ⟨⟨⟨⟨⟨⟨⟨⟨⟨⟨hsa, n1⟩, n2⟩, n3⟩, n4⟩, n5⟩, n6⟩, n7⟩, n8⟩, n9⟩, hfr⟩ := hl
-  rw [fresh_append] at hfr
-  simp only [Bool.and_eq_true, List.nil_append] at hfr
-  refine ⟨_, _, _, _, parseDoc_render tbl _ _ _ hx.table hx.clean hx.settings,
-    parseDoc_render tbl _ _ _ hx.table hx.clean hx.metaT,
-    parseDoc_render tbl _ _ _ hx.table hx.clean hx.content,
-    parseDoc_render tbl _ _ _ hx.table hx.clean hx.styles, ?_⟩
-  intro eS eM eC eY cS cM cC cY
-  have pS : loadPart false {} (evN (canonT (settingsTree d))) = some ⟨({} : Doc).app .settings (lsec d.settings), [], []⟩ := by
-    simp only [settingsTree, secEl_eq d hsa]
-    exact part_single {} qDocSettings .settings d.settings rfl trig_roots.2.2.2 (by decide) (by decide) (by decide) n1
-  have pM : ∀ l : Loaded, l.fix = [] → loadPart false l (evN (canonT (metaTree tv d))) =
-      some ⟨l.doc.app .metaS (lsec (normGen tv d.metaS)), l.names, []⟩ := by
-    intro l h
-    simp only [metaTree, secEl_eq d hsa]
-    exact part_single l qDocMeta .metaS _ h trig_roots.2.2.1 (by decide) (by decide) (by decide) n2
-  have pC : ∀ l : Loaded, l.fix = [] → l.names = [] → loadPart false l (evN (canonT (contentTree d uc))) = _ :=
-    fun l h hn => part_content l d uc hsa h n3 n4 n5 n6 (by rw [hn]; exact hfr.1)
-  have pY : ∀ l : Loaded, l.fix = [] → l.names = regF (some qAutoStyles) (canonTF [] uc) →
-      loadPart true l (evN (canonT (stylesTree d us))) = _ :=
-    fun l h hn => part_styles l d us hsa h n4 n7 n8 n9 (by rw [hn]; exact hfr.2)
-  simp only [settingsTree, metaTree, contentTree, stylesTree] at pS pM pC pY
-  refine ⟨regF (some qAutoStyles) (canonTF [] uc) ++ regF (some qStyles) (canonTF [] d.styles) ++
-    regF (some qAutoStyles) (canonTF [] us), ?_⟩
-  unfold loadSaved
-  cases hws : writesSettings d with
-  | true =>
-    simp only [if_true, List.cons_append, List.nil_append, loadParts, sp_names.1, sp_names.2.1, sp_names.2.2.1,
-      sp_names.2.2.2]
-    rw [loadPart_chunked _ _ _ _ cS, pS]
-    simp only []
-    rw [loadPart_chunked _ _ _ _ cM, pM _ rfl]
-    simp only []
-    rw [loadPart_chunked _ _ _ _ cC, pC _ rfl rfl]
-    simp only []
-    rw [loadPart_chunked _ _ _ _ cY, pY _ rfl (by simp)]
-    simp [expected, Doc.app, Doc.set, Doc.get]
-  | false =>
-    have hset : d.settings = .nil := by
-      cases h : d.settings with
-      | nil => rfl
-      | cons a b => simp [writesSettings, h] at hws
-    simp only [Bool.false_eq_true, if_false, List.nil_append, loadParts, sp_names.2.1, sp_names.2.2.1, sp_names.2.2.2]
-    rw [loadPart_chunked _ _ _ _ cM, pM _ rfl]
-    simp only []
-    rw [loadPart_chunked _ _ _ _ cC, pC _ rfl rfl]
-    simp only []
-    rw [loadPart_chunked _ _ _ _ cY, pY _ rfl (by simp)]
-    simp [expected, Doc.app, Doc.set, Doc.get, hset, lsec_nil]
-
-/-! ### the canonical form is a fixed point of the parser's normalisation (needed for "second generation") -/
-
-theorem hu_idem (c : Cp) : hu (hu c) = hu c := by
-  unfold hu
-  by_cases h : filtered c = true
-  · have : filtered 0xFFFD = false := by decide
-    simp [h, this]
+theorem fontDeclared_inner (st : St) (q : QName) (a : List (QName × Str)) (h : st.spine ≠ [] ∨ st.root ≠ .sec .fontFace) :
+    fontDeclared st q a = false := by
+  unfold fontDeclared
+  rcases h with h | h
+  · cases hs : st.spine with
+    | nil => exact absurd hs h
+    | cons f r => simp
   · simp [h]
 
-theorem map_hu_idem (s : Str) : (s.map hu).map hu = s.map hu := by
-  simp [List.map_map, Function.comp_def, hu_idem]
-
-theorem huAttrsQ_idem (a : List (QName × Str)) : huAttrsQ (huAttrsQ a) = huAttrsQ a := by
-  induction a with
-  | nil => rfl
-  | cons x r ih => obtain ⟨q, v⟩ := x; simp [huAttrsQ, ih, hu_idem]
-
 mutual
-/-- every string of the tree filtered through `hu` -/
-def huN : Node → Node
-  | .text s => .text (s.map hu)
-  | .cdata s => .cdata (s.map hu)
-  | .elem q a k => .elem q (huAttrsQ a) (huF k)
-def huF : Forest → Forest
-  | .nil => .nil
-  | .cons h t => .cons (huN h) (huF t)
+/-- **one element** that is not a child of the root element and not a repeated font declaration: LoadParser attaches
+    it, with its attributes and the merged content, to the parent — whatever its name is (a nested office:body, office:styles
+    … is ordinary content since repair @@HASH-A@@) -/
+theorem run_elem : (q : QName) → (a : List (QName × Str)) → (kids : Forest) → (st : St) → st.parsing = true →
+    st.skip = 0 → 2 ≤ st.depth → ParentOK st → st.fix = [] → fontDeclared st q a = false →
+    fresh st.names (regN (parentQ st) (.elem q a kids)) = true →
+    run st (evN (.elem q a kids)) = some (afterElem st q a kids)
+  | q, a, kids, st, hp, hsk, hd, hok, hf, hnf, hfr => by
+    have hfr' : fresh st.names (regOne (parentQ st) q a) = true ∧
+        fresh (st.names ++ regOne (parentQ st) q a) (regAllF ((parentQ st).map (fun _ => q)) kids) = true := by
+      simpa [regN, fresh_append] using hfr
+    simp only [evN, run_cons, step]
+    rw [stepStart_inner st q a hp hsk hd hok hf hnf hfr'.1]
+    simp only [Option.bind_some]
+    let st1 := openE (flushP st) q a
+    have ff := flushP_fields st
+    have h1p : st1.parsing = true := by simp [st1, openE, ff.1, hp]
+    have h1k : st1.skip = 0 := by simp [st1, openE, ff.2.2.2.2.1, hsk]
+    have h1d : 3 ≤ st1.depth := by simp [st1, openE, ff.2.2.2.1]; omega
+    have h1ok : ParentOK st1 := by left; simp [st1, openE]
+    have h1f : st1.fix = [] := by simp [st1, openE, ff.2.1, hf]
+    have h1q : parentQ st1 = (parentQ st).map (fun _ => q) := by
+      simp only [st1]; rw [parentQ_openE, flushP_parentQ]
+    have ihk := run_forest kids st1 h1p h1k (by omega) h1ok h1f (Or.inl (by simp [st1, openE]))
+      (by rw [h1q]; simpa [st1, openE, ff.2.2.1, flushP_parentQ] using hfr'.2)
+    rw [run_append, ihk]
+    simp only [Option.bind_some, run_cons, run_nil]
+    have hres := appendKids_fields st1 (mergeK st1.data kids).1
+    have h3p : (result st1 kids).parsing = true := by simp [result, hres.1, h1p]
+    have h3k : (result st1 kids).skip = 0 := by simp [result, hres.2.2.2.2.2.2.2.2.2, h1k]
+    have h3d : 3 ≤ (result st1 kids).depth := by simp [result, hres.2.2.2.2.2.2.2.2.1]; exact h1d
+    have h3s : (result st1 kids).spine ≠ [] := by
+      simp only [result]; intro h; have := hres.2.2.2.2.2.2.2.1.mp h; simp [st1, openE] at this
+    have h3c : (result st1 kids).currDet = false := by simp [result, st1, openE]
+    rw [step, stepStop_inner _ q h3p h3k h3d h3s h3c]
+    simp only [Option.bind_some]
+    rw [elem_closed st q a kids]
+/-- **the tree builder, inside a section**: the events of ANY forest append exactly `mergeK` of the forest to the
+    parent and leave the trailing character data pending (`NotFontTop`: not directly under office:font-face-decls,
+    where repeated font declarations are skipped — `run_fontTop`). -/
+theorem run_forest : (f : Forest) → (st : St) → st.parsing = true → st.skip = 0 → 2 ≤ st.depth → ParentOK st →
+    st.fix = [] → (st.spine ≠ [] ∨ st.root ≠ .sec .fontFace) → fresh st.names (regAllF (parentQ st) f) = true →
+    run st (evF f) = some (result st f)
+  | .nil, st, _, _, _, _, _, _, _ => by simp [evF, result_nil]
+  | .cons (.text s) t, st, hp, hsk, hd, hok, hf, hnt, hfr => by
+    simp only [evF, evN, List.cons_append, List.nil_append, run_cons, step, Option.bind_some]
+    have hst : stepChars st s = { st with data := st.data ++ s } := by simp [stepChars, hp, hsk]
+    rw [hst, ← result_text]
+    exact run_forest t _ hp hsk hd (by simpa [ParentOK] using hok) hf hnt (by simpa [regAllF, regN, parentQ] using hfr)
+  | .cons (.cdata s) t, st, hp, hsk, hd, hok, hf, hnt, hfr => by
+    simp only [evF, evN, List.cons_append, List.nil_append, run_cons, step, Option.bind_some]
+    have hst : stepChars st s = { st with data := st.data ++ s } := by simp [stepChars, hp, hsk]
+    rw [hst, ← result_cdata]
+    exact run_forest t _ hp hsk hd (by simpa [ParentOK] using hok) hf hnt (by simpa [regAllF, regN, parentQ] using hfr)
+  | .cons (.elem q a kids) t, st, hp, hsk, hd, hok, hf, hnt, hfr => by
+    have hfr' : fresh st.names (regN (parentQ st) (.elem q a kids)) = true ∧
+        fresh (st.names ++ regN (parentQ st) (.elem q a kids)) (regAllF (parentQ st) t) = true := by
+      simpa [regAllF, fresh_append] using hfr
+    simp only [evF]
+    rw [run_append, run_elem q a kids st hp hsk hd hok hf (fontDeclared_inner st q a hnt) hfr'.1]
+    simp only [Option.bind_some]
+    rw [← result_elem]
+    have af := appendKids_fields st (flushT st.data (.cons (.elem q a (mergeTF [] kids)) .nil))
+    refine run_forest t _ ?_ ?_ ?_ (afterElem_parentOK st q a kids hok) ?_ ?_ ?_
+    · simp [afterElem, af.1, hp]
+    · simp [afterElem, af.2.2.2.2.2.2.2.2.2, hsk]
+    · simp [afterElem, af.2.2.2.2.2.2.2.2.1]; exact hd
+    · simp [afterElem, af.2.1, hf]
+    · rcases hnt with h | h
+      · left; simp only [afterElem]; intro e; exact h (af.2.2.2.2.2.2.2.1.mp e)
+      · right; simp [afterElem, af.2.2.2.2.2.2.1]; exact h
+    · rw [afterElem_parentQ]; simpa [afterElem] using hfr'.2
 end
-
-theorem huF_flushT (acc : Str) (f : Forest) : huF (flushT acc f) = flushT (acc.map hu) (huF f) := by
-  unfold flushT
-  by_cases h : acc.isEmpty = true
-  · have := isEmpty_eq_nil h; subst this; simp
-  · have h2 : (acc.map hu).isEmpty = false := by cases acc <;> simp_all
-    simp [h, h2, huF, huN]
-
-theorem huF_canonTF (acc : Str) (f : Forest) (ha : acc.map hu = acc) : huF (canonTF acc f) = canonTF acc f := by
-  fun_induction canonTF acc f with
-  | case1 acc => simp [huF_flushT, ha, huF]
-  | case2 acc s t ih => exact ih (by simp [ha, hu_idem])
-  | case3 acc s t ih => exact ih (by simp [ha, hu_idem])
-  | case4 acc q a kids t ih1 ih2 => simp [huF_flushT, ha, huF, huN, huAttrsQ_idem, ih1 rfl, ih2 rfl]
-
-theorem canonTF_eq_merge (acc : Str) (f : Forest) : canonTF acc f = mergeTF acc (huF f) := by
-  fun_induction canonTF acc f with
-  | case1 acc => simp [huF, mergeTF]
-  | case2 acc s t ih => simpa [huF, huN, mergeTF] using ih
-  | case3 acc s t ih => simpa [huF, huN, mergeTF] using ih
-  | case4 acc q a kids t ih1 ih2 => simp [huF, huN, mergeTF, ih1, ih2]
-
-theorem canonTF_idem (f : Forest) : canonTF [] (canonTF [] f) = canonTF [] f := by
-  rw [canonTF_eq_merge [] (canonTF [] f), huF_canonTF [] f rfl, mergeTF_canon_id _ (canonB_canonTF [] f)]
-
-theorem canonT_idem (q : QName) (a : List (QName × Str)) (k : Forest) :
-    canonT (canonT (.elem q a k)) = canonT (.elem q a k) := by
-  simp [canonT, huAttrsQ_idem, canonTF_idem]
-
-/-! ### second generation -/
-
-/-- a section is empty or has at least one element child (true of every section a schema-directed document has:
-    none of the eight section elements may hold character data) -/
-def secOK : Forest → Bool
-  | .nil => true
-  | f => hasElemF f
-
-def SecsOK (d : Doc) (uc us : Forest) : Bool :=
-  secOK d.settings && secOK d.scripts && secOK d.fontFace && secOK uc && secOK d.body && secOK d.styles && secOK us &&
-  secOK d.master
-
-theorem lsec_secOK (f : Forest) (h : secOK f = true) : lsec f = canonTF [] f := by
-  cases f with
-  | nil => simp [lsec_nil, canonTF_nil]
-  | cons a t => simp only [secOK] at h; simp [lsec_eq, h]
-
-theorem ifKids_canon (s : Sec) (f g : Forest) (h : secOK f = true) :
-    canonTF [] (appF (ifKids0 s f) g) = appF (ifKids0 s (lsec f)) (canonTF [] g) := by
-  rw [lsec_secOK f h]
-  cases f with
-  | nil => simp [ifKids0, canonTF_nil]
-  | cons a t =>
-    simp only [secOK] at h
-    have he : hasElemF (canonTF [] (.cons a t)) = true := by rw [hasElemF_canonTF]; exact h
-    cases hc : canonTF [] (.cons a t) with
-    | nil => rw [hc] at he; simp [hasElemF] at he
-    | cons a' t' => simp [ifKids0, secEl0, canonTF_cons_elem, hc, huAttrsQ]
-
-theorem secEl_canon (s : Sec) (f g : Forest) (h : secOK f = true) :
-    canonTF [] (.cons (secEl0 s f) g) = .cons (secEl0 s (lsec f)) (canonTF [] g) := by
-  rw [lsec_secOK f h]; simp [secEl0, canonTF_cons_elem, huAttrsQ]
-
-theorem ver_stable : huAttrsQ verAttrs = verAttrs := by decide
-
-def noGenB : Forest → Bool
-  | .nil => true
-  | .cons h t => !isGen h && noGenB t
-
-theorem noGenB_filterNG : (m : Forest) → noGenB (filterNG m) = true
-  | .nil => rfl
-  | .cons h t => by
-    unfold filterNG
-    by_cases hg : isGen h = true
-    · simp [hg, noGenB_filterNG t]
-    · simp [hg, noGenB, noGenB_filterNG t]
-
-theorem filterNG_flushT (acc : Str) (f : Forest) : filterNG (flushT acc f) = flushT acc (filterNG f) := by
-  unfold flushT; split <;> simp [filterNG, isGen]
-
-theorem canon_genNode (tv : Str) (htv : tv.map hu = tv) (acc : Str) :
-    canonTF acc (.cons (genNode tv) .nil) = flushT acc (.cons (genNode tv) .nil) := by
-  unfold genNode
-  by_cases h : tv.isEmpty = true
-  · simp [h, canonTF, huAttrsQ, flushT]
-  · have h2 : tv ≠ [] := by intro e; simp [e] at h
-    simp [h, canonTF, huAttrsQ, flushT, htv, h2]
-
-theorem gen_fix (tv : Str) (htv : tv.map hu = tv) : (X : Forest) → (acc : Str) → noGenB X = true →
-    appF (filterNG (canonTF acc (appF X (.cons (genNode tv) .nil)))) (.cons (genNode tv) .nil) =
-      canonTF acc (appF X (.cons (genNode tv) .nil))
-  | .nil, acc, _ => by
-    have hg : isGen (genNode tv) = true := by simp [genNode, isGen]
-    simp [canon_genNode tv htv, filterNG_flushT, filterNG, hg, appF_flushT]
-  | .cons (.text s) t, acc, h => by
-    simp only [noGenB, isGen, Bool.not_false, Bool.true_and] at h
-    simpa [canonTF] using gen_fix tv htv t _ h
-  | .cons (.cdata s) t, acc, h => by
-    simp only [noGenB, isGen, Bool.not_false, Bool.true_and] at h
-    simpa [canonTF] using gen_fix tv htv t _ h
-  | .cons (.elem q a k) t, acc, h => by
-    simp only [noGenB, Bool.and_eq_true, Bool.not_eq_true'] at h
-    have hq : isGen (.elem q (huAttrsQ a) (canonTF [] k)) = false := by simpa [isGen] using h.1
-    simp only [appF_cons, canonTF, filterNG_flushT, filterNG, hq, Bool.false_eq_true, if_false, appF_flushT]
-    rw [gen_fix tv htv t [] h.2]
-
-theorem hasElemF_appF_elem (X : Forest) (q : QName) (a : List (QName × Str)) (k : Forest) :
-    hasElemF (appF X (.cons (.elem q a k) .nil)) = true := by
-  fun_induction hasElemF X <;> simp_all [hasElemF]
-
-theorem normGen_fix (tv : Str) (htv : tv.map hu = tv) (m : Forest) :
-    normGen tv (lsec (normGen tv m)) = canonTF [] (normGen tv m) := by
-  have he : hasElemF (normGen tv m) = true := by unfold normGen genNode; exact hasElemF_appF_elem _ _ _ _
-  rw [lsec_eq, he]
-  simp only [if_true, normGen]
-  exact gen_fix tv htv (filterNG m) [] (noGenB_filterNG m)
-
-/-- **C04 (second generation, partial)**: saving the loaded document writes, part by part, exactly the infoset of
-    the first package (`canonT` of the tree that was written = what the reference parser returns for it), with the
-    generator still named exactly once; settings.xml is written the second time iff it was the first time.
-    Hypotheses: `SecsOK` (no section consists of character data only), `noSecAttrs`, the library version string has no filtered
-    character, and — C10's subject — the second save selects for each part the automatic styles that were loaded
-    from it (`lsec uc`, `lsec us`). -/
-theorem second_generation_partial (tv : Str) (d : Doc) (uc us : Forest) (hs : SecsOK d uc us = true)
-    (hsa : noSecAttrs d = true) (htv : tv.map hu = tv) :
-    contentTree (expected tv d uc us) (lsec uc) = canonT (contentTree d uc) ∧
-    stylesTree (expected tv d uc us) (lsec us) = canonT (stylesTree d us) ∧
-    metaTree tv (expected tv d uc us) = canonT (metaTree tv d) ∧
-    settingsTree (expected tv d uc us) = canonT (settingsTree d) ∧
-    writesSettings (expected tv d uc us) = writesSettings d := by
-  simp only [SecsOK, Bool.and_eq_true] at hs
-  obtain ⟨⟨⟨⟨⟨⟨⟨o1, o2⟩, o3⟩, o4⟩, o5⟩, o6⟩, o7⟩, o8⟩ := hs
-  have he : noSecAttrs (expected tv d uc us) = true := rfl
-  refine ⟨?_, ?_, ?_, ?_, ?_⟩
-  · simp only [contentTree, secEl_eq _ he, ifKids_eq _ he, secEl_eq d hsa, ifKids_eq d hsa, autoEl_eq]
-    simp only [canonT, expected, ver_stable]
-    rw [ifKids_canon _ _ _ o2, ifKids_canon _ _ _ o3, secEl_canon _ _ _ o4, secEl_canon _ _ _ o5, canonTF_nil]
-  · simp only [stylesTree, secEl_eq _ he, ifKids_eq _ he, secEl_eq d hsa, ifKids_eq d hsa, autoEl_eq]
-    simp only [canonT, expected, ver_stable]
-    rw [ifKids_canon _ _ _ o3, secEl_canon _ _ _ o6, secEl_canon _ _ _ o7]
-    have := ifKids_canon .master d.master .nil o8
-    simp only [appF_nil_right, canonTF_nil] at this
-    rw [this]
-  · simp only [metaTree, secEl_eq _ he, secEl_eq d hsa]
-    simp only [canonT, expected, ver_stable]
-    rw [normGen_fix tv htv]
-    simp [secEl0, canonTF_cons_elem, huAttrsQ, canonTF_nil]
-  · simp only [settingsTree, secEl_eq _ he, secEl_eq d hsa]
-    simp only [canonT, expected, ver_stable]
-    rw [secEl_canon _ _ _ o1, canonTF_nil]
-  · simp only [expected, writesSettings]
-    rw [lsec_secOK _ o1]
-    cases hd : d.settings with
-    | nil => simp [canonTF_nil]
-    | cons a t =>
-      rw [hd] at o1; simp only [secOK] at o1
-      have he : hasElemF (canonTF [] (.cons a t)) = true := by rw [hasElemF_canonTF]; exact o1
-      cases hc : canonTF [] (.cons a t) with
-      | nil => rw [hc] at he; simp [hasElemF] at he
-      | cons a' t' => rfl
-
-/-- … hence both generations have the same infoset (the reference parser returns the same tree for both) -/
-theorem second_generation_infoset (tbl : NsTable) (tv : Str) (d : Doc) (uc us : Forest)
-    (hx : XmlOK tbl tv d uc us) (hs : SecsOK d uc us = true) (hsa : noSecAttrs d = true) (htv : tv.map hu = tv) :
-    parseDoc (render tbl (contentTree (expected tv d uc us) (lsec uc))) = parseDoc (render tbl (contentTree d uc)) ∧
-    parseDoc (render tbl (stylesTree (expected tv d uc us) (lsec us))) = parseDoc (render tbl (stylesTree d us)) ∧
-    parseDoc (render tbl (metaTree tv (expected tv d uc us))) = parseDoc (render tbl (metaTree tv d)) ∧
-    parseDoc (render tbl (settingsTree (expected tv d uc us))) = parseDoc (render tbl (settingsTree d)) := by
-  obtain ⟨e1, e2, e3, e4, _⟩ := second_generation_partial tv d uc us hs hsa htv
-  have key : ∀ (q : QName) (a : List (QName × Str)) (k : Forest), TreeOK tbl (.elem q a k) →
-      parseDoc (render tbl (canonT (.elem q a k))) = parseDoc (render tbl (.elem q a k)) := by
-    intro q a k h
-    rw [parseDoc_render tbl q a k hx.table hx.clean h]
-    have h2 := treeOK_canonT q a k h
-    simp only [canonT] at h2 ⊢
-    rw [parseDoc_render tbl q _ _ hx.table hx.clean h2]
-    have := canonT_idem q a k
-    simp only [canonT] at this ⊢
-    rw [this]
-  rw [e1, e2, e3, e4]
-  exact ⟨key _ _ _ hx.content, key _ _ _ hx.styles, key _ _ _ hx.metaT, key _ _ _ hx.settings⟩
-
-/-! ### proved counter-examples (known findings) -/
-
-def topNames : Forest → List QName
-  | .nil => []
-  | .cons (.elem q _ _) t => q :: topNames t
-  | .cons _ t => topNames t
-
-/-- `u:a`, `u:b`, `u:c` in the namespace "u" -/
-def exQ (c : Nat) : QName := ⟨[117], [c]⟩
-def exE (c : Nat) : Node := .elem (exQ c) [] .nil
-
-/-- content.xml whose body is `<u:a/> <office:settings><u:c/></office:settings> <u:b/>` (the schema allows an inline
-    office:document, with its own office:settings / office:body …, inside draw:object) -/
-def nestedPart : Node :=
-  .elem qDocContent [] (.cons (.elem qBody []
-    (.cons (exE 97) (.cons (.elem qSettings [] (.cons (exE 99) .nil)) (.cons (exE 98) .nil)))) .nil)
-
-/-- **known finding KF-C04-8, proved on the model**: the nested office:settings is routed to the OUTER document's
-    settings, the body keeps only what came before it (`u:b` is lost: the inner end tag switched the parser off),
-    and the nested element itself is not in the body. -/
-theorem finding_nested_section :
-    (loadPart false {} (evN nestedPart)).map (fun l => (topNames l.doc.body, topNames l.doc.settings)) =
-      some ([exQ 97], [exQ 99]) := by decide
-
-/-- … and this is exactly what `LoadOK` excludes -/
-theorem nested_not_LoadOK : noTrigF (.cons (exE 97) (.cons (.elem qSettings [] (.cons (exE 99) .nil)) (.cons (exE 98) .nil))) = false := by
-  decide
-
-/-- `Object 1/styles.xml` -/
-def sObj1Styles : Str := [79, 98, 106, 101, 99, 116, 32, 49, 47] ++ sStylesXml
-
-/-- styles.xml of a sub-document with one font declaration -/
-def fontsPart : Node :=
-  .elem qDocStyles [] (.cons (.elem qFontFace [] (.cons (exE 102) .nil)) (.cons (.elem qStyles [] (.cons (exE 115) .nil)) .nil))
-
-/-- (was known finding KF-C04-4 / KF-C05-4, repaired in 934baed) the base name of `doc._parsing` is compared, so the
-    font declarations of a sub-document's styles.xml are loaded like those of the top document, while
-    "Object 1/content.xml" still skips them -/
-theorem subdocument_fonts_loaded :
-    stylesPartOf sObj1Styles = true ∧
-    (loadPart (stylesPartOf sObj1Styles) {} (evN fontsPart)).map (fun l => (topNames l.doc.fontFace, topNames l.doc.styles)) =
-      some ([exQ 102], [exQ 115]) ∧
-    (loadPart (stylesPartOf ([79, 98, 106, 101, 99, 116, 32, 49, 47] ++ sContentXml)) {} (evN fontsPart)).map
-      (fun l => (topNames l.doc.fontFace, topNames l.doc.styles)) = some ([], [exQ 115]) := by decide
-
-/-! ### the hypotheses are satisfiable -/
-
-/-- namespace table: office ↦ "o", meta ↦ "m", "u" ↦ "p" -/
-def exTbl : NsTable := [(OFFICENS, [111]), (METANS, [109]), ([117], [112])]
-
-/-- body `<u:a>x y<u:b/> </u:a>` (mixed content, white-space-only text), one common style element, the rest empty -/
-def exDoc : Doc :=
-  { body := .cons (.elem (exQ 97) [] (.cons (.text [120, 32, 121]) (.cons (exE 98) (.cons (.text [32]) .nil)))) .nil,
-    styles := .cons (exE 115) .nil }
-
-theorem exTbl_ok : TableOK exTbl := by
-  refine ⟨by decide, ?_⟩
-  intro e he
-  simp only [exTbl, List.mem_cons, List.not_mem_nil, or_false] at he
-  rcases he with rfl | rfl | rfl <;> refine ⟨by decide, by decide, by decide, ?_⟩ <;> unfold StrOK <;> decide
-
-/-- a decision procedure for the XML layer's `TreeOK` (so that `XmlOK` can be checked by evaluation) -/
-def strOKb (s : Str) : Bool := s.all (fun c => decide (c < 0x110000))
-def qnameOKb (q : QName) : Bool := isNCName q.loc && (!q.ns.isEmpty || decide (q.loc ≠ XMLNS_NAME))
-def coveredB (tbl : NsTable) (q : QName) : Bool := q.ns.isEmpty || (lookupNs tbl q.ns).isSome
-def attrsOKb (tbl : NsTable) (as : List (QName × Str)) : Bool :=
-  nodupQ as && as.all (fun a => qnameOKb a.1 && coveredB tbl a.1 && strOKb a.2)
-
-mutual
-def treeOKb (tbl : NsTable) : Node → Bool
-  | .text s => strOKb s
-  | .cdata s => strOKb s
-  | .elem q a k => qnameOKb q && coveredB tbl q && attrsOKb tbl a && forestOKb tbl k
-def forestOKb (tbl : NsTable) : Forest → Bool
-  | .nil => true
-  | .cons h t => treeOKb tbl h && forestOKb tbl t
-end
-
-theorem strOKb_sound {s : Str} (h : strOKb s = true) : StrOK s := by
-  intro c hc; simp only [strOKb, List.all_eq_true, decide_eq_true_eq] at h; exact h c hc
-
-theorem qnameOKb_sound {q : QName} (h : qnameOKb q = true) : QNameOK q := by
-  simp only [qnameOKb, Bool.and_eq_true, Bool.or_eq_true, Bool.not_eq_true', decide_eq_true_eq] at h
-  refine ⟨h.1, fun hn => ?_⟩
-  rcases h.2 with h2 | h2
-  · simp [hn] at h2
-  · exact h2
-
-theorem coveredB_sound {tbl : NsTable} {q : QName} (h : coveredB tbl q = true) : Covered tbl q := by
-  simp only [coveredB, Bool.or_eq_true] at h
-  rcases h with h | h
-  · left; exact isEmpty_eq_nil h
-  · right; cases hl : lookupNs tbl q.ns with
-    | none => simp [hl] at h
-    | some p => exact ⟨p, rfl⟩
-
-theorem attrsOKb_sound {tbl : NsTable} {as : List (QName × Str)} (h : attrsOKb tbl as = true) : AttrsQOK tbl as := by
-  simp only [attrsOKb, Bool.and_eq_true, List.all_eq_true] at h
-  exact ⟨h.1, fun a ha => ⟨qnameOKb_sound (h.2 a ha).1.1, coveredB_sound (h.2 a ha).1.2, strOKb_sound (h.2 a ha).2⟩⟩
-
-mutual
-theorem treeOKb_sound (tbl : NsTable) : (n : Node) → treeOKb tbl n = true → TreeOK tbl n
-  | .text s, h => strOKb_sound (by simpa [treeOKb] using h)
-  | .cdata s, h => strOKb_sound (by simpa [treeOKb] using h)
-  | .elem q a k, h => by
-    simp only [treeOKb, Bool.and_eq_true] at h
-    exact ⟨qnameOKb_sound h.1.1.1, coveredB_sound h.1.1.2, attrsOKb_sound h.1.2, forestOKb_sound tbl k h.2⟩
-theorem forestOKb_sound (tbl : NsTable) : (f : Forest) → forestOKb tbl f = true → ForestOK tbl f
-  | .nil, _ => trivial
-  | .cons h t, hh => by
-    simp only [forestOKb, Bool.and_eq_true] at hh
-    exact ⟨treeOKb_sound tbl h hh.1, forestOKb_sound tbl t hh.2⟩
-end
-
-/-- non-vacuity: all hypotheses of `load_save_partial`, `second_generation_partial` hold for a document with mixed
-    content and white-space-only text in the body, a common style, the library's generator string "T" -/
-example : XmlOK exTbl [84] exDoc .nil .nil ∧ LoadOK [84] exDoc .nil .nil = true ∧ SecsOK exDoc .nil .nil = true ∧
-    noSecAttrs exDoc = true ∧ ([84] : Str).map hu = [84] := by
-  refine ⟨⟨exTbl_ok, ?_, ?_, ?_, ?_, ?_⟩, by decide, by decide, by decide, by decide⟩
-  · intro e he
-    simp only [exTbl, List.mem_cons, List.not_mem_nil, or_false] at he
-    rcases he with rfl | rfl | rfl <;> decide
-  · exact treeOKb_sound _ _ (by decide)
-  · exact treeOKb_sound _ _ (by decide)
-  · exact treeOKb_sound _ _ (by decide)
-  · exact treeOKb_sound _ _ (by decide)
 
 end OdfModel.Props.C04
